@@ -121,6 +121,8 @@ func c14Pure(tier string) *PureResult {
 type LoopParams struct {
 	Depth int  `json:"depth"`
 	Sched bool `json:"sched"` // fixed history deliver,ack,commit,tick,tick explored over schedules instead
+	// Failover adds "fail-over without rollback" to the alphabet
+	Failover bool `json:"failover"`
 }
 
 func init() {
@@ -146,6 +148,7 @@ func init() {
 			}
 			return []Instance{
 				{Scenario: "c14_loop", Params: mustJSON(LoopParams{Depth: d}), Bound: 0, Shards: 8},
+				{Scenario: "c14_loop", Params: mustJSON(LoopParams{Depth: d, Failover: true}), Bound: 0, Shards: 8, Note: "alphabet extended by a fail-over without rollback (transient end, re-open under a new vbUUID)"},
 				{Scenario: "c14_loop", Params: mustJSON(LoopParams{Sched: true}), Bound: b, Shards: 8, Note: "fixed history deliver,ack,commit,tick,tick over all schedules within the bound"},
 			}
 		},
@@ -188,6 +191,7 @@ func loopMain(p LoopParams) {
 	var hist []string
 	userDelivered := 0
 	pendingAck := false
+	failovers := 0
 	fixed := []int{0, 2, 3, 4, 4}
 	depth := p.Depth
 	if p.Sched {
@@ -199,7 +203,11 @@ func loopMain(p LoopParams) {
 			op = fixed[step]
 			vrt.Window(op >= 3)
 		} else {
-			op = vrt.Choose(5, true, "loop-op")
+			nops := 5
+			if p.Failover {
+				nops = 6
+			}
+			op = vrt.Choose(nops, true, "loop-op")
 		}
 		writesBefore := len(c.Writes)
 		savesBefore := len(e.RecMeta.Saves)
@@ -236,6 +244,15 @@ func loopMain(p LoopParams) {
 		case 4:
 			vrt.Sleep(o.CheckpointInterval + 1)
 			hist = append(hist, "tick")
+		case 5: // fail-over without rollback: both vBuckets go on under a new vbUUID after a transient end
+			failovers++
+			for vb := uint16(0); vb < 2; vb++ {
+				c.Vb[vb].Failover = append([]gocbcore.FailoverEntry{{VbUUID: gocbcore.VbUUID(5000 + failovers), SeqNo: gocbcore.SeqNo(c.Vb[vb].High)}}, c.Vb[vb].Failover...)
+				c.EndStream(vb, gocbcore.ErrDCPStreamStateChanged)
+			}
+			vrt.Sleep(2e9)
+			vrt.Quiesce()
+			hist = append(hist, "failover")
 		}
 		c.WaitIdle()
 		vrt.Window(false)
